@@ -408,8 +408,8 @@ fn main() {
         println!("VIOLATION property=C08 replay={}", path);
         std::process::exit(1);
     }
-    let thorough = cli.thorough();
-    let depth = cli.opt("--depth").and_then(|s| s.parse().ok()).unwrap_or(if thorough { 4 } else { 3 });
+    let thorough = cli.level() >= 1;
+    let depth = cli.opt("--depth").and_then(|s| s.parse().ok()).unwrap_or([3usize, 4, 5][cli.level().min(2)]);
     let mut scenarios = vec![];
     for batch in [BatchStrategy::Disabled, BatchStrategy::Fixed, BatchStrategy::Dynamic] {
         for low in [0u64, 3_600_000_000_000] {
